@@ -305,6 +305,34 @@ impl Settings {
     pub fn describe(&self) -> String {
         format!("{self:?}")
     }
+
+    /// The same settings supplied through `Performance`'s OWN setters (the any-mode enum forwards each to the
+    /// mode's builder) instead of handing over a finished `Difficulty`.
+    pub fn apply_via_setters<'a>(&self, p: rosu_pp::Performance<'a>, mode: u8) -> rosu_pp::Performance<'a> {
+        let mut p = p.mods(self.mods.build(mode));
+        if let Some(r) = self.clock_rate {
+            p = p.clock_rate(r);
+        }
+        if let Some((v, w)) = self.ar {
+            p = p.ar(v, w);
+        }
+        if let Some((v, w)) = self.cs {
+            p = p.cs(v, w);
+        }
+        if let Some((v, w)) = self.hp {
+            p = p.hp(v, w);
+        }
+        if let Some((v, w)) = self.od {
+            p = p.od(v, w);
+        }
+        if let Some(b) = self.hardrock_offsets {
+            p = p.hardrock_offsets(b);
+        }
+        if let Some(b) = self.lazer {
+            p = p.lazer(b);
+        }
+        p
+    }
 }
 
 pub const LEGACY_POOL: &[u32] = &[
